@@ -3,7 +3,7 @@
    Store typing Σ : cell ↦ dynamic type; every expression of static type t
    evaluates to a cell of dynamic type t; no run ends in EInternal/EHostCrash. *)
 From Coq Require Import ZArith NArith PArith List String Bool Floats FMapPositive Lia.
-From EvyV Require Import Base Num Ast Omap OmapProofs Sem Static.
+From EvyV Require Import Base Num Ast Omap OmapProofs Sem SemPure Static.
 Import ListNotations.
 Open Scope Z_scope.
 
@@ -1241,6 +1241,115 @@ Proof.
   eapply wp_mono; [eapply load_wp; eauto|]. cbv beta. intros v2 s2 [-> _]. reflexivity.
 Qed.
 
+(* the pure string and math built-ins of Sem.pure_builtin: their names, and that each has a
+   signature in the table *)
+Lemma pure_builtin_names name vals m : pure_builtin name vals = Some m ->
+  In name (map s_ ["upper"; "lower"; "trim"; "replace"; "index"; "split"; "floor"; "ceil"; "round";
+                   "pow"; "atan2"; "log"; "sin"; "cos"; "rand"; "rand1"; "hsl"]%string).
+Proof.
+  unfold pure_builtin. intros Hb.
+  repeat match type of Hb with
+  | (if name_is ?n ?lit then Some _ else _) = Some _ =>
+      let E := fresh "E" in
+      destruct (name_is n lit) eqn:E;
+      [unfold name_is in E; apply str_eqb_eq in E; subst n; simpl; tauto|clear E]
+  end.
+  discriminate.
+Qed.
+Lemma pure_builtin_sig name vals m : pure_builtin name vals = Some m -> builtin_sig name <> None.
+Proof.
+  intros Hb. apply pure_builtin_names in Hb. simpl in Hb.
+  repeat destruct Hb as [<-|Hb]; try contradiction; vm_compute; discriminate.
+Qed.
+
+Lemma args3 p q r ts : args_ok [p; q; r] None ts = true ->
+  exists a b c, ts = [a; b; c] /\ arg_ok p a = true /\ arg_ok q b = true /\ arg_ok r c = true.
+Proof.
+  destruct ts as [|a [|b [|c [|d ts]]]]; simpl; try discriminate.
+  - intros H. apply andb_true_iff in H as [_ H]. discriminate.
+  - intros H. apply andb_true_iff in H as [_ H]. apply andb_true_iff in H as [_ H]. discriminate.
+  - intros H. apply andb_true_iff in H as [H1 H]. apply andb_true_iff in H as [H2 H].
+    apply andb_true_iff in H as [H3 _]. eauto 8.
+  - intros H. apply andb_true_iff in H as [_ H]. apply andb_true_iff in H as [_ H].
+    apply andb_true_iff in H as [_ H]. discriminate.
+Qed.
+Ltac sig3 Hok HF :=
+  unfold sig_args_ok in Hok; cbn [fs_var fs_params] in Hok;
+  let H1 := fresh "Hok" in let H2 := fresh "Hok" in let H3 := fresh "Hok" in
+  apply args3 in Hok as (? & ? & ? & -> & H1 & H2 & H3);
+  apply arg_ok_basic in H1; [subst|discriminate|discriminate];
+  apply arg_ok_basic in H2; [subst|discriminate|discriminate];
+  apply arg_ok_basic in H3; [subst|discriminate|discriminate];
+  let HF' := fresh "HF" in rename HF into HF'; fa2 HF'.
+
+(* hslFunc either rejects its arguments or returns a string *)
+Lemma hsl_model_shape o nums :
+  (exists k, Builtins.hsl_model o nums = Builtins.OPanic k) \/
+  (exists t, Builtins.hsl_model o nums = Builtins.ORet (Builtins.VStr t)).
+Proof.
+  unfold Builtins.hsl_model, Builtins.hsl_with.
+  destruct nums as [|h [|a [|b [|c [|d r]]]]];
+    repeat match goal with |- context [if ?c then _ else _] => destruct c end; eauto.
+Qed.
+
+(* results of the pure string and math built-ins that are in the fragment *)
+Lemma pure_builtin_sound P S G e s name vals m sg ts :
+  pure_builtin name vals = Some m -> mem_str name s1_builtins = true -> builtin_sig name = Some sg ->
+  sig_args_ok sg ts = true -> Forall2 (fun l t => sfind S l = Some t) vals ts ->
+  genv_ok P G -> inv S G e s ->
+  wp (m s) (bpost S G e (fs_ret sg)).
+Proof.
+  intros Hb Hs1 Hsig Hok HF HG Hi. pose proof Hi as [Hh He].
+  unfold pure_builtin in Hb.
+  repeat match type of Hb with
+  | (if name_is ?n ?lit then Some _ else _) = Some _ =>
+      let E := fresh "E" in
+      destruct (name_is n lit) eqn:E;
+      [ unfold name_is in E; apply str_eqb_eq in E; subst n; injection Hb as <-;
+        vm_compute in Hs1; try discriminate Hs1;
+        vm_compute in Hsig; injection Hsig as <-; cbn [fs_ret] | clear E ]
+  end; try discriminate Hb.
+  - (* upper *) sig1 Hok HF. load_s. destruct (is_ascii _); [apply bpost_of_alloc_str; auto | exact I].
+  - (* lower *) sig1 Hok HF. load_s. destruct (is_ascii _); [apply bpost_of_alloc_str; auto | exact I].
+  - (* trim *) sig2 Hok HF. load_s. load_s. apply bpost_of_alloc_str; auto.
+  - (* replace *) sig3 Hok HF. load_s. load_s. load_s. apply bpost_of_alloc_str; auto.
+  - (* index *) sig2 Hok HF. load_s. load_s. apply bpost_of_alloc_num; auto.
+  - (* split: one string cell per part, then the array of them *)
+    sig2 Hok HF. load_s. load_s.
+    wbind ltac:(eapply (mapM_wp (fun p => alloc (HStr p)) (fun _ _ => True)
+                          (fun S' (_ : str) l => sfind S' l = Some TStr) (st_globals s));
+                [auto | intros; eauto | | exact Hh | reflexivity | apply Forall_forall; auto]).
+    { intros S0 s0 p Hh0 Hg0 _.
+      eapply wp_mono; [eapply (alloc_wp S0 s0 (HStr p) TStr); [exact Hh0 | apply CStr | apply ok1_TStr]|]. cbv beta.
+      intros l s' (S' & E & Hh' & Hl & Hg'). hdone S'. }
+    intros ls s1 (S1 & E1 & Hh1 & Hg1 & HR).
+    eapply ret_alloc_bpost; [exact E1 | eapply inv_step; eauto | | ok1t].
+    constructor. clear -HR. induction HR; constructor; auto.
+  - (* floor *) sig1 Hok HF. load_n. apply bpost_of_alloc_num; auto.
+  - (* ceil *) sig1 Hok HF. load_n. apply bpost_of_alloc_num; auto.
+  - (* round *) sig1 Hok HF. load_n. apply bpost_of_alloc_num; auto.
+  - (* pow *) sig2 Hok HF. load_n. load_n. exact I.
+  - (* atan2 *) sig2 Hok HF. load_n. load_n. exact I.
+  - (* log *) sig1 Hok HF. load_n. exact I.
+  - (* sin *) sig1 Hok HF. load_n. exact I.
+  - (* cos *) sig1 Hok HF. load_n. exact I.
+  - (* rand *) sig1 Hok HF. load_n. destruct (negb _); exact I.
+  - (* rand1 *)
+    unfold sig_args_ok in Hok; cbn [fs_var fs_params] in Hok. apply args0 in Hok. subst ts.
+    inversion HF; subst. exact I.
+  - (* hsl: any number of num arguments *)
+    unfold sig_args_ok in Hok; cbn [fs_var fs_params] in Hok.
+    assert (Hn : Forall (fun l => sfind S l = Some TNum) vals).
+    { clear -Hok HF. revert Hok. induction HF as [|l t vals ts Hl HF IH]; intros Hok; constructor.
+      - cbn [forallb] in Hok. apply andb_true_iff in Hok as [H1 _].
+        apply arg_ok_basic in H1; [congruence|discriminate|discriminate].
+      - apply IH. cbn [forallb] in Hok. apply andb_true_iff in Hok as [_ H2]. exact H2. }
+    wbind ltac:(apply mapM_pure; intros a Ha; eapply load_num_wp; eauto;
+                rewrite Forall_forall in Hn; auto). intros nums s1 ->.
+    destruct (hsl_model_shape ascii_oracles nums) as [[k ->] | [t ->]]; [exact I|].
+    destruct (forallb small_int nums); [apply bpost_of_alloc_str; auto | exact I].
+Qed.
+
 Lemma builtin_sound P S G e s name vals m sg ts :
   builtin name e vals = Some m -> mem_str name s1_builtins = true -> builtin_sig name = Some sg ->
   sig_args_ok sg ts = true -> Forall2 (fun l t => sfind S l = Some t) vals ts ->
@@ -1340,11 +1449,13 @@ Proof.
       simpl in Hin. repeat destruct Hin as [<-|Hin]; try contradiction;
         vm_compute in Hsig; injection Hsig as <-; cbn [fs_ret];
         sig2 Hok HF; load_n; load_n; apply emit_none_bpost; auto. }
-    destruct (existsb (str_eqb name) gfx_str_names) eqn:E3; [|discriminate].
+    destruct (existsb (str_eqb name) gfx_str_names) eqn:E3.
     { injection Hb as <-. apply existsb_exists in E3 as (x & Hin & Hx). apply str_eqb_eq in Hx; subst x.
       simpl in Hin. repeat destruct Hin as [<-|Hin]; try contradiction;
         vm_compute in Hsig; injection Hsig as <-; cbn [fs_ret];
         sig1 Hok HF; load_s; apply emit_none_bpost; auto. }
+    (* the pure string and math built-ins *)
+    eapply pure_builtin_sound; eauto.
 Qed.
 
 Lemma builtin_none name e vals : builtin name e vals = None -> mem_str name s1_builtins = false.
@@ -1357,6 +1468,11 @@ Proof.
   destruct (existsb (str_eqb name) gfx_num_names) eqn:X1; [discriminate|].
   destruct (existsb (str_eqb name) gfx_xy_names) eqn:X2; [discriminate|].
   destruct (existsb (str_eqb name) gfx_str_names) eqn:X3; [discriminate|].
+  unfold pure_builtin in Hb.
+  repeat match type of Hb with
+  | (if name_is ?n ?lit then Some _ else _) = None =>
+      let E := fresh "E" in destruct (name_is n lit) eqn:E; [discriminate Hb|]
+  end.
   apply not_true_is_false. intros Hm. apply mem_str_In in Hm. simpl in Hm.
   repeat destruct Hm as [<-|Hm]; try contradiction;
     repeat match goal with
@@ -2300,7 +2416,7 @@ Proof.
   destruct (existsb (str_eqb name) gfx_xy_names) eqn:X2.
   { apply existsb_exists in X2 as (x & Hin & Hx). apply str_eqb_eq in Hx; subst x.
     simpl in Hin. repeat destruct Hin as [<-|Hin]; try contradiction; vm_compute; discriminate. }
-  destruct (existsb (str_eqb name) gfx_str_names) eqn:X3; [|discriminate].
+  destruct (existsb (str_eqb name) gfx_str_names) eqn:X3; [|eapply pure_builtin_sig; eauto].
   apply existsb_exists in X3 as (x & Hin & Hx). apply str_eqb_eq in Hx; subst x.
   simpl in Hin. repeat destruct Hin as [<-|Hin]; try contradiction; vm_compute; discriminate.
 Qed.
